@@ -520,11 +520,11 @@ def patched(log: List[Dict[str, Any]], holder: Dict[str, Any]):
                 e.update(obj=self.fullName(), off=lineno_offset, rsec=section, dl=self.docstring_lineno,
                          ln=int(self.linenumber), ismod=self.module is self, descr=descr)
 
-    def reportErrors(obj, errs, section="docstring"):
-        log.append({"t": "r", "section": section, "obj": obj.fullName(), "n": len(errs)})
+    def reportErrors(obj, errs, section="docstring", phase="parsing"):
+        log.append({"t": "r", "section": section, "obj": obj.fullName(), "oid": id(obj), "phase": phase, "n": len(errs)})
         state["in_re"] += 1
         try:
-            return o_re(obj, errs, section)
+            return o_re(obj, errs, section, phase)
         finally:
             state["in_re"] -= 1
 
@@ -803,6 +803,15 @@ def run(ctx: Ctx) -> None:
             lit_impl.append("dl=%d clean=%s" % (o["dl"], enc(o["doc"] if o["doc"] is not None else "")))
             lit_pay.append({"string_lineno": sl, "value": doc["value"]})
             mine = by_obj.get(doc["name"], [])
+            # "every such problem is counted" once: the same message on the same line of the same object twice is a second
+            # rendering that reports again (summary, table of contents, a retry)
+            seen_once = set()
+            for e in mine:
+                key = (e["line"], e["kind"], e["name"], e["descr"])
+                if key in seen_once and e["kind"] in ("X", "P", "U", "E", "W"):
+                    ctx.fail("dup:same-report-twice:" + e["kind"], {**inp, "object": doc["name"], "message": e["msg"][:200]},
+                             f"{FMTS[fmt]} docstring of {doc['name']}: reported (and counted) twice: {e['msg'][:100]}")
+                seen_once.add(key)
             exp = expected_reports(doc, off)
             span = (sl, sl + doc["value"].count("\n"))
             if fmt in "er":
@@ -846,7 +855,9 @@ def run(ctx: Ctx) -> None:
         summary_seen = 0
         for e in res["log"]:
             if e["t"] == "r":
-                ops.append("r:%d:%d:%d" % (0 if e["section"] == "docstring" else iid(("s", e["section"])), iid(("o", e["obj"])), e["n"]))
+                # reportErrors is keyed by (section, the object itself, phase) since b867a76; the name only goes to parse_errors
+                ops.append("r:%d:%d:%d:%d:%d" % (0 if e["section"] == "docstring" else iid(("s", e["section"])), iid(("id", e["oid"])), e["n"],
+                                                  0 if e["phase"] == "parsing" else 1, iid(("o", e["obj"]))))
             elif e["section"] == "docstring-summary":
                 summary_seen += 1      # produced by main's tail: the model generates these itself
             elif not e["in_re"]:
@@ -1509,6 +1520,32 @@ def stream_sys_api(ctx: Ctx) -> None:
                     want = 3 if (wae and (viol > 0 or any(t[0] == "p" and t[1] == 0 for t in pe))) else 2 if anype else 0
                     if rc != want:
                         ctx.fail("exit:tail:%d-expected-%d" % (rc, want), pay[-1], f"main returned {rc}, expected {want}")
+        # (c) the real reportErrors driven directly: once per (section, object, phase), the name goes to parse_errors
+        from pydoctor import epydoc2stan
+        from pydoctor.epydoc.markup import ParseError
+        for t in range(60 if ctx.quick else 600):
+            system = model.System()
+            system.options.verbosity = 0
+            builder = system.systemBuilder(system)
+            builder.addModuleString("class PC:\n    pass\nclass PD:\n    pass\n", modname="pm")
+            builder.buildModules()
+            objs = [system.allobjects["pm"], system.allobjects["pm.PC"], system.allobjects["pm.PD"]]
+            ops = []
+            wae = ctx.rng.random() < 0.5
+            buf = io.StringIO()
+            with contextlib.redirect_stdout(buf):
+                for _ in range(ctx.rng.randint(1, 6)):
+                    oi, sec, ph, n = ctx.rng.randrange(3), ctx.rng.choice([0, 0, 5]), ctx.rng.randrange(2), ctx.rng.choice([0, 1, 2])
+                    epydoc2stan.reportErrors(objs[oi], [ParseError("e%d" % k, k) for k in range(n)],
+                                             section="docstring" if sec == 0 else "sec5", phase="parsing" if ph == 0 else "rendering")
+                    ops.append("r:%d:%d:%d:%d:%d" % (sec, oi + 1, n, ph, oi + 1))
+                driver.get_system = lambda options, s=system: s
+                driver.make = lambda s: None
+                rc = driver.main((["-W"] if wae else []) + ["/nonexistent-c16"])
+            printed = len([l for l in buf.getvalue().split("\n") if l])
+            reqs.append("lineno sys %d 0 %s" % (wae, " ".join(ops)))
+            impls.append("status=%d violations=%d printed=%d pe=%d" % (rc, system.violations, printed, int(any(system.parse_errors.values()))))
+            pay.append({"warnings_as_errors": wae, "reportErrors": ops})
     finally:
         driver.get_system, driver.make = o_gs, o_make
     compare(ctx, "sys-api", reqs, impls, pay)
